@@ -32,6 +32,10 @@ CHECKS["C19"] = ("exploration", "request-grammar monitor: every wallet-facing ap
   "no handler may panic, return neither response nor error, or hang with a structural deadlock; after every delivered block / unconfirmed transaction the follower must have consumed it and no wallet goroutine may have died",
   "handlers that only proxy to the consensus node are not exercised (no such node in the simulator); request strings valid UTF-8, no nil messages; chain events restricted to output classes block validation accepts; consensus minimum staking value lowered to 1 MASS per case", "§5 C19")
 
+CHECKS["C17"] = ("exploration", "schedule control through the wallet-database interposer: each of four queries is parked in front of every one of its database reads while 1-2 tips (connect / reorg) are committed and the same question is asked undisturbed at every boundary; answer must equal one boundary's answer, a built transaction must be spendable at one boundary per the reference ledger; plus seven API goroutines against follower and worker under the Go race detector",
+  "for every read gap of WalletBalance(detail), AddressBalance, GetUtxo and AutoCreateRawTransaction (quick: ≤14 gaps per query and case, thorough: all) the gated answer is compared with the set of boundary answers; race reports in which wallet code performs at least one of the two accesses are violations",
+  "boundary answers come from the wallet itself (C01 checks them against the ledger); a building call that refuses with an error during a reorganisation is counted, not judged; races between two third-party accessors (mass-core ChainDb.NewestSha vs Commit, logger) are listed in the evidence, not judged", "§5 C17")
+
 CHECKS["C11"] = ("exploration", "reference-model monitor (nested in-memory map with pending overlay) after every operation + porcupine linearizability check of concurrent transaction histories + Go race detector on a tenth of them",
   "sequential: every Get/GetByPrefix/BucketNames/iterator/Seek result and every error return of the real ldb driver on on-disk LevelDB is compared with the model across commit, rollback, error-return and close/reopen; concurrent: recorded call/return histories of whole transactions must be linearizable w.r.t. a sequential map",
   "trusts the 60-line map model and porcupine; iterators checked on committed data only; bucket re-creation error code not demanded", "§5 C11")
